@@ -140,6 +140,15 @@ pub fn run_behaviour(b: &Value) -> Outcome {
                                     "observed":data_to_val(&data),"input":data_to_val(&before)}));
                             }
                         }
+                        // what holds for every application (C10): no more successes than tuples,
+                        // and every tuple that is not counted carries NaN
+                        if ex["honest"].as_bool() == Some(true) {
+                            let with_nan = data.iter().filter(|t| t.0.iter().any(|x| x.is_nan())).count();
+                            if n > data.len() || data.len() - n > with_nan {
+                                out.fails.push(json!({"call":ci,"what":"dishonest_count","dir":dir,"count":n,"tuples":data.len(),
+                                    "tuples_with_nan":with_nan,"observed":data_to_val(&data),"input":data_to_val(&before)}));
+                            }
+                        }
                         if ex["unchanged"].as_bool() == Some(true) && !data_bits_eq(&before, &data) {
                             out.fails.push(json!({"call":ci,"what":"unchanged","dir":dir,
                                 "observed":data_to_val(&data),"input":data_to_val(&before)}));
